@@ -108,14 +108,17 @@ def check(case, ctx):
     da = __import__("vp.boot", fromlist=["boot"]).boot()
     sp = case["a"]
     m = model.from_spec(sp)
-    a = gen.build(sp)
+    a = common.build_under_option(sp, ctx.outcomes)
+    import zlib
+    common.set_tols(a, zlib.crc32(repr(sp["labels"]).encode()), ctx.outcomes)
+    common.set_fillattrs(a, zlib.crc32(repr(sp["labels"]).encode()) + 1, ctx.outcomes)
     if case["mode"] == "like":
         tsp = case["template"]
         t = gen.build(tsp, meta=False)
         other = t.axes if case["as_axes"] else t
         label = "a.reindex_like(template) a: dims=%r labels=%s; template: dims=%r labels=%s" % (
             m.dims, codec.short(m.labels, 150), tuple(tsp["dims"]), codec.short(tsp["labels"], 150))
-        res, exc = ctx.call(label, lambda: a.reindex_like(other), operands=(a, t), meta='carry')
+        res, exc = ctx.call(label, lambda: a.reindex_like(other), operands=(a, t), meta='carry', ambient=True)
         exp = m
         for d in m.dims:
             if d in tsp["dims"]:
@@ -141,7 +144,7 @@ def check(case, ctx):
     else:
         fn = lambda: a.reindex_axis(arg, axis=axis_arg, **kw)
     ops = (a, arg) if form != 'list' else (a,)
-    res, exc = ctx.call(label, fn, operands=ops, meta='carry')
+    res, exc = ctx.call(label, fn, operands=ops, meta='carry', ambient=True)
     klass = (kind, case["mode"], form, 'nan' if fill != fill else type(fill).__name__, m.values.dtype.kind, case["raise_error"],
              case["method"], m.ndim, k)
     old = m.labels[k]
